@@ -186,16 +186,9 @@ func c6Check(c *Ctx, lv map[string]int64) {
 				ok, cex := AllDisjunctsHave(dnf, func(s string) bool { return s == "override == nil" || s == "override == 0" })
 				c.Check(ok, "R6.1", th.String(), "default-for-nil-or-noop#"+itoa(k+1), r.Pos(), "the default is returned exactly for nil or WriteThenNoop (counter-example %v)", cex)
 			case ssa.Value(ov):
-				conj := dnf[0]
-				has := func(w string) bool {
-					for _, a := range conj {
-						if a == w {
-							return true
-						}
-					}
-					return false
-				}
-				c.Check(len(dnf) == 1 && has("override != nil") && has("override != 0"), "R6.1", th.String(), "override-otherwise#"+itoa(k+1), r.Pos(), "the configured hook is used only when it is neither nil nor WriteThenNoop (path %v)", dnf)
+				ok1, _ := AllDisjunctsHave(dnf, func(s string) bool { return s == "override != nil" })
+				ok2, _ := AllDisjunctsHave(dnf, func(s string) bool { return s == "override != 0" })
+				c.Check(ok1 && ok2, "R6.1", th.String(), "override-otherwise#"+itoa(k+1), r.Pos(), "the configured hook is used only when it is neither nil nor WriteThenNoop")
 			default:
 				c.Bad("R6.1", th.String(), "return#"+itoa(k+1), r.Pos(), "unexpected return %s", Desc(v))
 			}
